@@ -86,6 +86,19 @@ def run(chk, repo, tier):
         chk.ob('C16-b', 'B5-default', fq.key, 'waveunit is passed explicitly to Spectrum.sample', oks and n > 0, '', fq.loc())
 
     fb = repo.func('detector.collect_charge_bayer')
+    # each colour block is an array of its own: an in-place operation on something taken out of a container that all three
+    # channels use (a memo of the spectral sums keyed by the efficiency vector) masks the shared array three times over -
+    # equal efficiencies give an all-zero frame
+    _, bpaths, _ = analyse(repo, fb, config={'flatten': TRUE})
+    shared = []
+    for p in returns(bpaths):
+        for e in p.events:
+            if e.kind == 'write' and e.data.get('how') == 'augassign':
+                ta = e.target.single_atom() if isinstance(e.target, Poly) else None
+                if ta is not None and ta[0] == 'idx' and is_app(ta[1], ('dict', 'list', 'defaultdict', 'collections.defaultdict', 'OrderedDict')):
+                    shared.append(f'in-place {e.data.get("op", "operator")} on {fmt(e.target)[:70]} at {e.loc()}')
+    chk.ob('C16-c', 'E-ownership', fb.key, 'the colour blocks do not share storage', not shared,
+           '; '.join(sorted(set(shared))[:2]) or 'no in-place operation on an entry of a container', fb.loc())
     with chk.guard(['C16-a', 'C16-b', 'C16-c', 'C16-d'], fb.key, 'colour channels recognisable in the result'):
         chans_by_path = bayer_channels(repo, chk)
         colours = (('red', 'R'), ('green', 'G'), ('blue', 'B'))
